@@ -605,6 +605,57 @@ fn mutants(base: &Spend, kind: &str, m: &MutCtx, rng: &mut Rng, budget: usize) -
         raw.extend_from_slice(&base.ssig);
         out.push(Spend { mkind: "s:nop".into(), base: "mut", wit: base.wit.clone(), ssig: raw });
     }
+    // every empty element replaced by each valid signature in turn (more signatures than needed)
+    if budget >= 8 {
+        let mut nfill = 0;
+        for i in 0..base.wit.len() {
+            if !base.wit[i].is_empty() || w_struct(i) {
+                continue;
+            }
+            for sg in m.sigs.iter() {
+                if nfill >= 10 {
+                    break;
+                }
+                let mut s2 = base.clone();
+                s2.wit[i] = sg.clone();
+                s2.base = "mut";
+                s2.mkind = "w:fill-sig".into();
+                if seen.insert((s2.wit.clone(), s2.ssig.clone())) {
+                    out.push(s2);
+                    nfill += 1;
+                }
+            }
+        }
+        for i in 0..items.len() {
+            if !items[i].is_empty() || s_struct(i) {
+                continue;
+            }
+            for sg in m.sigs.iter() {
+                if nfill >= 10 {
+                    break;
+                }
+                let mut it = items.clone();
+                it[i] = sg.clone();
+                let s2 = Spend { mkind: "s:fill-sig".into(), base: "mut", wit: base.wit.clone(), ssig: build_ssig(&it) };
+                if seen.insert((s2.wit.clone(), s2.ssig.clone())) {
+                    out.push(s2);
+                    nfill += 1;
+                }
+            }
+        }
+    }
+    // a different script in place of the committed one: OP_1 with nothing to consume
+    match kind {
+        "wsh" | "shwsh" => out.push(Spend { mkind: "script-true".into(), base: "mut", wit: vec![vec![0x51]], ssig: base.ssig.clone() }),
+        "tr" if base.wit.len() >= 2 => out.push(Spend {
+            mkind: "script-true".into(),
+            base: "mut",
+            wit: vec![vec![0x51], base.wit[base.wit.len() - 1].clone()],
+            ssig: vec![],
+        }),
+        "sh" => out.push(Spend { mkind: "script-true".into(), base: "mut", wit: vec![], ssig: vec![0x01, 0x51] }),
+        _ => {}
+    }
     // the script element re-serialised non-canonically (fused VERIFY opcodes split)
     let (vec_id, idx): (u8, Option<usize>) = match kind {
         "wsh" | "shwsh" => (0, base.wit.len().checked_sub(1)),
